@@ -100,6 +100,7 @@ func mustLoad(o opts) *Engine {
 	}
 	e.loadSeconds = time.Since(t0).Seconds()
 	e.initAxioms()
+	e.computeGlobalInit()
 	return e
 }
 
